@@ -52,7 +52,7 @@ def main(tier, seed):
     rep.cov["rule"] += "; " + simcheck.RULE["F1"] + "; " + simcheck.RULE["F2"] + "; " + simcheck.RULE["F5"] + " (DAG-shape spaces): every logged transition legal, refused requests leave no trace, completed is final, an operator is in at most one live container"
     simcheck.run_f1(rep, "C02", tier)
     simcheck.run_f2(rep, "C02", tier)
-    simcheck.run_f5(rep, "C02", tier, ["dag:naive", "dag:overbook", "dag:priority", "dag:priority-pool"], seed)
+    simcheck.run_f5(rep, "C02", tier, ["dag:naive", "dag:overbook", "dag:priority", "dag:priority-pool", "scale:naive", "scale:priority"], seed)
     rep.sample(dict(dag_parents=ds[7], example_history=[[0, "assigned"], [0, "running"], [1, "assigned"], [1, "running (refused: parent not completed)"]]))
     return rep.finish()
 
